@@ -30,11 +30,11 @@ META["text"] = (
     "Oracle on implementation output: (1) every support point returned lies in its shape and attains the closed-form support value computed independently in python; "
     "(2) for pairs of ellipsoids, cylinders, boxes, capsules and spheres routed to GJK/EPA, mj_geomDistance (both geom orders) and the contact dist of mj_collision are compared with an independent reference: "
     "separated pairs — alternating projections onto the two bodies, accepted only with a certificate (upper bound |b-a| from feasible points, lower bound from the separating slab along b-a, gap < 1e-7), tolerance 1e-6; "
-    "penetrating pairs — the reported depth must equal the extent h_A(n)+h_B(-n) of the Minkowski difference along the reported normal and no direction found by a multi-start projected-gradient search may give a smaller extent (tolerance 1e-5 up to depth 0.02, deeper penetrations 2e-3 relative: the EPA is iteration-limited there); "
+    "penetrating pairs — the reported depth must equal the extent h_A(n)+h_B(-n) of the Minkowski difference along the reported normal and no direction found by a multi-start projected-gradient search may give a smaller extent (default settings: 1e-5 + 0.5 percent of the depth, the EPA is iteration-limited on curved shapes; converged run: 2e-6); "
     "touching: axis-aligned pairs exactly and nearly touching, in a canonical frame and under a common rigid motion, must report the gap within 2e-6, for mj_geomDistance and for the contacts of mj_collision at margin 0, over |gap| in {0, 1e-12, ..., 1e-5} (KNOWN finding C15-F1 touching-degenerate, restricted to this aligned family with |gap| <= 1e-5: the native GJK/EPA returns garbage, up to the centre distance or a spurious centimetre-deep contact, for a few percent of such configurations); "
     "swap symmetry: same distance in both orders, witness points exchanged (normal reversed; contact normals of the two orders within 3 degrees at convergence, 8 degrees with default settings). "
     "The distance oracle runs twice: with mjOption.ccd_iterations raised to 200 (GJK/EPA stop on ccd_tolerance = 1e-6: tolerance 2e-6 on every distance) and with the shipped default of 35 iterations, where the EPA on margin-inflated curved shapes is iteration-limited "
-    "(observed: contact dist off by up to 1e-4 and normal by ~3 degrees at inflated depth 0.06, both gone with 100 iterations) and tolerances scale with the depth (1e-5 below depth 0.02, else 0.2-0.5 percent).")
+    "(observed: contact dist off by up to 1e-4 and normal by ~3 degrees at inflated depth 0.06, both gone with 100 iterations) and tolerances scale with the depth (1e-5 + 0.2-0.5 percent). Exactly axis-aligned penetrating pairs (centres on a common world axis, first geom below / above / beside the second, millimetres deep, both geom orders) are part of the distance oracle with these ordinary tolerances: they are NOT in the known class.")
 META["note"] = ("Trusted: Coq kernel + the standard-library real-number axioms listed in trusted_base; hand-written model Model/ConvexSupport.v; correspondence harness (gcc, drivers c15_support.c, c15_gjk.c, c13_prim.c); "
                 "python reference geometry (projections, support functions, optimiser) of the oracle.")
 
@@ -395,6 +395,20 @@ def dist_cases(ctx):
                 hi = mid
         p2 = add(p1, scl(dirv, 0.5 * (lo + hi)))
         cs.append((t1, s1, p1, q1, t2, s2, p2, q2))
+    # exactly axis-aligned PENETRATING pairs (millimetres deep) in the world frame: centres on a common world axis (+-z, +-x, +-y: the first
+    # geom below / above / beside the second one), geom axes mapped onto world axes.  GJK then ends with a segment through the origin that is
+    # exactly parallel to a coordinate axis (polytope2 / hexahedron start of the EPA).  Both geom orders are run by the caller.
+    acombos = [(tA, tB, q, d, gap) for (tA, tB) in pairs + [(b, a) for (a, b) in pairs if a != b] for (_, q) in G.ALIGNED_QUATS[:4]
+               for d in ([0.0, 0, 1.0], [0.0, 0, -1.0], [1.0, 0, 0], [-1.0, 0, 0], [0, 1.0, 0], [0, -1.0, 0]) for gap in (-0.002, -0.008, -0.03)]
+    must = [c for c in acombos if c[2] == G.ALIGNED_QUATS[0][1] and c[3][2] != 0 and c[4] == -0.008]      # every pair, +-z, identity orientation
+    rest = [c for c in acombos if c not in must]
+    for (tA, tB, qB, d, gap) in must + rng.sample(rest, 30 if not big else 400):
+        sA = [rng.choice([0.1, 0.15]), rng.choice([0.2, 0.12]), rng.choice([0.25, 0.08])]
+        sB = [rng.choice([0.1, 0.2]), rng.choice([0.1, 0.15]), rng.choice([0.12, 0.3])]
+        pA = [float(rng.randrange(-2, 3)) * 0.25 for _ in range(3)]           # dyadic centre: the alignment stays exact
+        A0, B0 = Shape(tA, sA, [0.0, 0, 0], EYE), Shape(tB, sB, [0.0, 0, 0], G.quat2mat(qB))
+        off = A0.h(d) + B0.h(scl(d, -1.0)) + gap
+        cs.append((tA, sA, pA, [1.0, 0, 0, 0], tB, sB, add(pA, scl(d, off)), list(qB)))
     return cs
 
 
@@ -647,7 +661,7 @@ def distance_oracle(ctx, c, w1, w2, stats, rng, mode):
     # ---- swap symmetry of mj_geomDistance: within one world (two argument orders) and across the two worlds (roles of the bodies exchanged)
     alld = [w1["gd12"], w1["gd21"], w2["gd12"], w2["gd21"]]
     deep = min(alld) < -0.02
-    symtol = 2e-6 if (strict or not deep) else 2e-3 * abs(min(alld)) + 2e-6
+    symtol = 2e-6 if strict else 5e-3 * abs(min(min(alld), 0.0)) + 1e-5
     if max(alld) - min(alld) > symtol:
         viol("mj_geomDistance gives the same distance when the two geoms are swapped", "equal distances (tolerance %g)" % symtol, alld, "swap-distance")
     # witness points exchanged: normal reversed (only when the witness pair is unique enough: compare directions)
@@ -656,7 +670,7 @@ def distance_oracle(ctx, c, w1, w2, stats, rng, mode):
         n21 = sub(w1["ft21"][3:], w1["ft21"][:3])
         if norm(n12) > 1e-9 and norm(n21) > 1e-9:
             cosang = dot(n12, n21) / (norm(n12) * norm(n21))
-            if cosang > -1 + 1e-3:
+            if cosang > -1 + (1e-3 if strict else 1e-2):
                 viol("swapping the geoms reverses the normal (witness points exchanged)", "normals opposite (cos = -1)", {"cos": cosang, "ft12": w1["ft12"], "ft21": w1["ft21"]}, "swap-normal")
     # ---- reference distance
     ref = separated_reference(A, B)
@@ -682,7 +696,7 @@ def distance_oracle(ctx, c, w1, w2, stats, rng, mode):
         depth = -gd
         refd, refdir = penetration_reference(A, B, starts, rng)
         stats["penetrating_checked"] += 1
-        tolp = 2e-6 if strict else (1e-5 if depth < 0.02 else 2e-3 * depth + 1e-5)
+        tolp = 2e-6 if strict else 5e-3 * depth + 1e-5          # default mode: iteration-limited EPA (ellipsoid tips: up to 2.9e-5 at depth 0.008)
         errp = abs(refd - depth)
         if depth < 0.02:
             stats["max_pen_err_shallow"] = max(stats["max_pen_err_shallow"], errp)
@@ -699,7 +713,7 @@ def distance_oracle(ctx, c, w1, w2, stats, rng, mode):
             stats["contacts_checked"] += 1
             cd = w["cons"][0]["dist"]
             epa_depth = w["detect"] - cd            # the contact is found by EPA on the shapes inflated by margin/2 each
-            tolc = 2e-6 if strict else (1e-5 if epa_depth < 0.02 else 5e-3 * epa_depth + 1e-5)
+            tolc = 2e-6 if strict else 5e-3 * epa_depth + 1e-5
             stats["max_contact_vs_geomdist"] = max(stats["max_contact_vs_geomdist"], abs(cd - w["gd12"]))
             if abs(cd - w["gd12"]) > tolc:
                 viol("contact dist agrees with mj_geomDistance", w["gd12"], cd, "contact")
